@@ -804,12 +804,58 @@ impl Compactor {
         // Generate target path
         let target_path = self.generate_compacted_path(level);
 
+        let parquet_size = parquet_bytes.len() as u64;
+
         // Upload to object storage
         self.object_store
             .put(&target_path.clone().into(), parquet_bytes.into())
             .await?;
 
+        // Register the merged chunk in the catalog before the sources are
+        // swapped out: complete_compaction only re-levels an entry that is
+        // already there, and without it the sources would be removed with
+        // nothing taking their place.
+        let (min_timestamp, max_timestamp) = Self::timestamp_bounds(&sorted)?;
+        let chunk_metadata = crate::ingester::ChunkMetadata {
+            path: target_path.clone(),
+            min_timestamp,
+            max_timestamp,
+            row_count: sorted.num_rows() as u64,
+            size_bytes: parquet_size,
+        };
+        self.metadata
+            .register_chunk(&target_path, &chunk_metadata)
+            .await?;
+
         Ok(target_path)
+    }
+
+    /// Minimum and maximum of the timestamp column of a merged batch
+    fn timestamp_bounds(batch: &arrow_array::RecordBatch) -> Result<(i64, i64)> {
+        use arrow_array::cast::AsArray;
+        use arrow_array::types::{Int64Type, TimestampNanosecondType};
+
+        let col = batch
+            .column_by_name("timestamp")
+            .ok_or_else(|| Error::InvalidSchema("Missing timestamp column".into()))?;
+
+        if let Some(ts) = col.as_primitive_opt::<TimestampNanosecondType>() {
+            return Ok((
+                arrow::compute::min(ts).unwrap_or(0),
+                arrow::compute::max(ts).unwrap_or(0),
+            ));
+        }
+        if let Some(ts) = col.as_primitive_opt::<Int64Type>() {
+            return Ok((
+                arrow::compute::min(ts).unwrap_or(0),
+                arrow::compute::max(ts).unwrap_or(0),
+            ));
+        }
+
+        Err(Error::InvalidSchema(format!(
+            "Timestamp column must be Timestamp(Nanosecond) or Int64, got {:?}",
+            col.data_type()
+        )))
     }
 
     /// Garbage collect old chunks with grace period
